@@ -81,11 +81,6 @@ func c08Slot(c *core.Ctx, k c08Case) {
 			return
 		}
 	}
-	// direct: the epoch is the nearest multiple of 120 s, ties up
-	diff := ep*1_000_000_000 - k.TNs
-	if ep%120 != 0 || diff > 60_000_000_000 || diff <= -60_000_000_000 {
-		c.Violate("C08/slot/not-nearest-2min", fmt.Sprintf("t=%dns rounds to %d s", k.TNs, ep), k)
-	}
 }
 
 func c08Seal(key []byte, plaintext []byte) ([]byte, error) {
